@@ -68,7 +68,13 @@ def gen_world(seed, classes=ALL_CLASSES, want_constraints=0.3, node_p=0.25, tag=
     cover = base in models.COVER_CLASSES
     float_w = (not cover) and rng.random() < 0.3
     if dag:
-        g = gen.dag_bowtie(rng, float_w=float_w) if (flow_decomp and rng.random() < 0.4) else gen.dag_layered(rng, max_nodes=6, max_edges=8, float_w=float_w)
+        r_ = rng.random()
+        if flow_decomp and r_ < 0.3:
+            g = gen.dag_bowtie(rng, float_w=float_w)
+        elif r_ < 0.3 + 0.5 * want_constraints:
+            g = gen.dag_braid(rng, max_routes=3, wmax=6, float_w=float_w)     # long, crossing routes: meaningful constraints
+        else:
+            g = gen.dag_layered(rng, max_nodes=6, max_edges=8, float_w=float_w)
     else:
         g = gen.digraph_cyclic(rng, max_nodes=5, max_edges=6, max_routes=2, wmax=3, float_w=float_w)
         while len(g["routes"]) > 3 or len(g["edges"]) > 7:
